@@ -8,6 +8,7 @@ import (
 	"sort"
 	"strings"
 
+	"github.com/nyaruka/gocommon/i18n"
 	"github.com/nyaruka/gocommon/urns"
 	"github.com/nyaruka/goflow/assets"
 	"github.com/nyaruka/goflow/assets/static"
@@ -127,17 +128,42 @@ func runC20(c *Ctx) {
 		n1, n2, n3, n4 := us.next(), us.next(), us.next(), us.next()
 		r2, e2 := mkRouter(true, []string{n3, n3, n2, ""})
 		r4, e4 := mkRouter(false, []string{"", n2, ""})
+		// an action on the router's own node saving the same result name with another category
+		sameNode := func(router map[string]any) []json.RawMessage {
+			rn, ok := router["result_name"].(string)
+			if !ok || !r.Chance(50) {
+				return nil
+			}
+			b, _ := json.Marshal(map[string]any{"uuid": us.next(), "type": "set_run_result", "name": rn, "value": "v", "category": Pick(r, []string{"Pending", "Red", "Maybe"})})
+			return []json.RawMessage{b}
+		}
+		trOnly := us.next() // a send_msg whose quick replies exist only in a translation
+		trOnlyAction, _ := json.Marshal(map[string]any{"uuid": trOnly, "type": "send_msg", "text": "hola"})
+		n1Actions := pickActions(r.Range(1, 4))
+		localization := map[string]any{}
+		if r.Chance(50) {
+			n1Actions = append(n1Actions, trOnlyAction)
+			localization["spa"] = map[string]any{trOnly: map[string]any{"quick_replies": []string{"@globals.org_name", "@fields.gender"}, "attachments": []string{"image/jpeg:http://x.com/@fields.age"}}}
+		}
+		n2node := map[string]any{"uuid": n2, "router": r2, "exits": e2}
+		if a := sameNode(r2); a != nil {
+			n2node["actions"] = a
+		}
+		n4node := map[string]any{"uuid": n4, "router": r4, "exits": e4}
+		if a := sameNode(r4); a != nil {
+			n4node["actions"] = a
+		}
 		nodes := []map[string]any{
-			{"uuid": n1, "actions": pickActions(r.Range(1, 4)), "exits": []map[string]any{{"uuid": us.next(), "destination_uuid": n2}}},
-			{"uuid": n2, "router": r2, "exits": e2},
+			{"uuid": n1, "actions": n1Actions, "exits": []map[string]any{{"uuid": us.next(), "destination_uuid": n2}}},
+			n2node,
 			{"uuid": n3, "actions": pickActions(r.Range(1, 4)), "exits": []map[string]any{{"uuid": us.next(), "destination_uuid": n4}}},
-			{"uuid": n4, "router": r4, "exits": e4},
+			n4node,
 		}
 		rc, ec := mkRouter(true, []string{""})
 		child := map[string]any{"uuid": childUUID, "name": "Child", "spec_version": "13.6.0", "language": "eng", "type": "messaging", "revision": 1, "expire_after_minutes": 60,
 			"localization": map[string]any{}, "nodes": []map[string]any{{"uuid": us.next(), "actions": pickActions(1), "router": rc, "exits": ec}}}
 		main := map[string]any{"uuid": flowUUID, "name": "Main", "spec_version": "13.6.0", "language": "eng", "type": "messaging", "revision": 1, "expire_after_minutes": 60,
-			"localization": map[string]any{}, "nodes": nodes}
+			"localization": localization, "nodes": nodes}
 		all := map[string]any{}
 		for k, v := range base {
 			all[k] = v
@@ -215,7 +241,7 @@ func runC20(c *Ctx) {
 		ok := !c.Guard("C20-run", "panic:run", desc, func() {
 			restore := setDeterministic(int64(i))
 			defer restore()
-			contact := flows.NewEmptyContact(sa, "Ann", "eng", nil)
+			contact := flows.NewEmptyContact(sa, "Ann", i18n.Language(Pick(r, []string{"eng", "spa"})), nil)
 			contact.AddURN(urns.URN("tel:+12065550100"), nil)
 			trig := triggers.NewBuilder(env, assets.NewFlowReference(assets.FlowUUID(flowUUID), "Main"), contact).Manual().Build()
 			s, _, err := eng.NewSession(sa, trig)
@@ -282,8 +308,8 @@ func runC20(c *Ctx) {
 					fail("inspect-missing-result:open_ticket", fmt.Sprintf("open_ticket saved result %q (key %s, category %s) which inspection does not declare", e.Name, key, e.Category))
 				} else if !listed {
 					fail("inspect-missing-result", fmt.Sprintf("the run saved result %q (key %s) which inspection does not list", e.Name, key))
-				} else if !contains(cats, "*") && !contains(cats, e.Category) {
-					// several savers may share a key; categories are merged per key only from the first - be exact: any listed spec with open categories allows all
+				} else if e.Category != "" && !contains(cats, "*") && !contains(cats, e.Category) {
+					// a result saved without a category has nothing to be listed; several savers may share a key; categories are merged per key only from the first - be exact: any listed spec with open categories allows all
 					fail("inspect-missing-category", fmt.Sprintf("result %s was saved with category %q, inspection lists %v", key, e.Category, cats))
 				}
 			case *events.ContactGroupsChangedEvent:
@@ -329,10 +355,16 @@ func runC20(c *Ctx) {
 				fail("waiting-exit-missing", "a resumed run left its wait through exit "+parts[1]+" which inspection does not list as a waiting exit")
 			}
 		}
-		// template-borne globals and fields: statically named references in the templates of executed actions
-		for fu, f := range flowsByUUID {
+		// template-borne globals and fields: statically named references anywhere in the definition, translations included
+		// (scanned from the JSON text, independently of the flow's own template extraction)
+		for fu := range flowsByUUID {
 			in := inspections[fu]
-			for _, t := range f.ExtractTemplates() {
+			var strs []string
+			collectStrings(json.RawMessage(defJSON[fu]), &strs)
+			for _, t := range strs {
+				if !strings.Contains(t, "@") {
+					continue
+				}
 				for _, g := range findRefs(t, "globals") {
 					kinds["global"] = true
 					if sa.Globals().Get(g) != nil && !in.deps["global:"+g] {
@@ -465,4 +497,28 @@ func c20ModelSpec(def map[string]any) (string, map[string]int) {
 		ns = append(ns, encList(acts, ",")+"|"+router+"|"+encList(exs, ","))
 	}
 	return strings.Join(ns, ";"), exitIDs
+}
+
+// every JSON string value in a document
+func collectStrings(raw json.RawMessage, out *[]string) {
+	var v any
+	if json.Unmarshal(raw, &v) != nil {
+		return
+	}
+	var walk func(x any)
+	walk = func(x any) {
+		switch t := x.(type) {
+		case string:
+			*out = append(*out, t)
+		case []any:
+			for _, e := range t {
+				walk(e)
+			}
+		case map[string]any:
+			for _, e := range t {
+				walk(e)
+			}
+		}
+	}
+	walk(v)
 }
